@@ -108,6 +108,7 @@ Sz124 == {-1, 1, 2, 4}
 Sz123 == {-1, 1, 2, 3}
 Sz12 == {-1, 1, 2}
 Sz13 == {-1, 1, 3}
+Sz14 == {-1, 1, 4}
 Sz0123 == {-1, 0, 1, 2, 3}
 Sz1234 == {-1, 1, 2, 3, 4}
 Sz23 == {-1, 2, 3}
@@ -154,6 +155,7 @@ BudSlots5 == <<SD(1, <<>>), SD(1, <<>>), SDn(2, <<>>), SD(3, <<>>), SD(3, <<>>)>
 OptsBud == {O(F, F, F, T, F, F, F, F), O(F, F, F, T, T, F, F, F), O(F, F, F, F, T, F, F, F)}
 AgentMetrics == <<MD(1, 1, 0, 0), MD(2, 2, 0, 0)>>
 AgentSlots == <<SD(1, <<>>), SD(1, <<>>), SDn(2, <<>>), SD(2, <<>>)>>
+OptsBud2 == {O(F, F, F, T, F, F, F, F), O(F, F, F, F, T, F, F, F)}
 OptsBudOnly == {O(F, F, F, T, F, F, F, F)}
 OptsAgent3 == {O(T, F, F, T, F, F, F, F), O(T, T, F, F, F, F, F, F), O(T, F, T, F, T, F, F, F)}
 OptsAgent == {O(T, F, F, T, F, F, F, F), O(T, F, T, T, F, F, F, F), O(T, T, F, F, F, F, F, F), O(F, T, F, F, F, F, F, F),
